@@ -18,8 +18,8 @@ def check(tier, seed):
                       INSTANCE_NOTE + "the Fock representation (operator -> matrix on a truncated Fock space, restricted to states at distance > order x degree from the edge) is "
                       "multiplicative and adjoint-preserving on those states because order-n terms move occupations by at most n x degree (locality lemma, not mechanised)",
                       "A-SY1/A-SY2: sympy xreplace / simplify / collect_const / doit are value-preserving on coefficient expressions"]
-    d.not_decided += ["NumberOrderedForm addition, adjoint, from_expr / as_expr, _combine_operators, _poly_simplify: bounded battery (C08) only",
-                      "solve_scalar with diagonal=True returns R - R^dagger: that this solves the positive-shift terms uses Hermiticity of Y and the adjoint of NumberOrderedForm (battery)",
+    d.not_decided += ["NumberOrderedForm from_expr / as_expr, _combine_operators / _expand_operators, __pow__, _poly_simplify: bounded battery (C08) only",
+                      "solve_scalar with diagonal=True returns R - R^dagger: that this solves the positive-shift terms is the identity [H, -R^dagger] = [H, R]^dagger for Hermitian Y (paper argument) on top of the adjoint contract",
                       "the wiring of block_diagonalize for operator input (H_eval, post-simplification): bounded battery only"]
     d.explanation = ("U^dagger U = 1 and U^dagger H U = H_tilde *within the operator algebra* are the C01/C02 theorems instantiated at the algebra of number-ordered forms, "
                      "whose multiplication is proved faithful on Fock states (C08 units re-run here).  Agreement with block-diagonalized truncated matrices is an instance of "
